@@ -81,6 +81,12 @@ static void match_heap_visit(const VisitRec& r, int mh, const char* what) {
   probe(PR_visit_checked);
 }
 
+// Σ used over all areas of a heap (passthrough: a pure query)
+size_t heap_used_sum(mi_heap_t* h, size_t* pages) {
+  VisitRec r; sched_set_passthrough(true); mi_heap_visit_blocks(h, false, &visitor_fn, &r); sched_set_passthrough(false);
+  size_t used = 0; for (auto& a : r.areas) used += a.used; if (pages) *pages = r.areas.size(); return used;
+}
+
 static void do_visit_heap(const Op& op) {
   int mh = (op.hslot >= 0 && op.hslot < 8 && T->hslots[op.hslot] >= 0) ? T->hslots[op.hslot] : T->deflt;
   mi_heap_t* h = heap_ptr(mh);
@@ -278,7 +284,8 @@ static void do_giveback_check(const Op& op) {
       sim_violation("os_region_leaked", "after everything was freed and mi_collect(true): mapping #%u [0x%llx,+0x%llx) created by thread %d op %d (mmap call #%llu) is still mapped and is not part of any arena", r.id, (unsigned long long)r.start, (unsigned long long)r.len, r.vt, r.op, (unsigned long long)r.call_no);
   }
   // (2) arena memory is no longer committed (unless purging is disabled / reset mode)
-  if (!(op.a & 2) && mi_option_get(mi_option_purge_delay) >= 0 && mi_option_get(mi_option_purge_decommits) != 0) {
+  const bool purge_faults = (g_os.refused[OS_MADV_DONTNEED] + g_os.refused[OS_MADV_FREE] + g_os.refused[OS_MPROTECT_NONE] + g_os.refused[OS_MPROTECT_RW] + g_os.refused[OS_MUNMAP]) > 0;
+  if (!(op.a & 2) && !purge_faults && mi_option_get(mi_option_purge_delay) >= 0 && mi_option_get(mi_option_purge_decommits) != 0) {
     for (auto& a : as) {
       uint64_t res = os_resident_bytes(a.start, a.size);
       if (res > 0) sim_violation("arena_still_committed", "after everything was freed and mi_collect(true): %llu bytes of arena [0x%llx,+0x%llx) are still resident (committed)", (unsigned long long)res, (unsigned long long)a.start, (unsigned long long)a.size);
